@@ -135,18 +135,18 @@ def run_case(args):
     except Exception as ex:
         return [(tag + " execution [%s]" % str(ex)[:90], False, "%s: %s" % (type(ex).__name__, ex), time.time() - t0)]
 
-def add(rep, thorough):
+def add(rep, thorough, only_valid=False, name="C13-fit-arguments"):
     import multiprocessing as mp
     global PROG
     prog, params, e = build(); PROG = (prog, params)
     rep.functions.append(e.info())
-    tasks = [(nd, label, pb, must) for nd in (1, 2) for (label, pb, must) in variants(nd)]
+    tasks = [(nd, label, pb, must) for nd in (1, 2) for (label, pb, must) in variants(nd) if not (only_valid and must)]
     t0 = time.time()
     with mp.Pool(min(vlib.NCORES, 16)) as pool:
         res = pool.map(run_case, tasks, chunksize=2)
     flat = [o for r in res for o in r]
     rep.add_group("E3 exact execution of the GOTO program of the extracted fit(), C fitter hooked with its preconditions (BOUNDED: enumerated argument combinations)",
-                  len(flat), sum(1 for o in flat if o[1]), time.time() - t0, bounded="valid problems and every single-fault variant of the arguments, ndim 1 and 2", name="C13-fit-arguments")
+                  len(flat), sum(1 for o in flat if o[1]), time.time() - t0, bounded="valid problems and every single-fault variant of the arguments, ndim 1 and 2", name=name)
     for o in flat:
-        if not o[1]: rep.add_violation("C13-fit-arguments", o[0].replace(" ", "_")[:170], o[0] + ": " + o[2], trace=o[2])
+        if not o[1]: rep.add_violation(name, o[0].replace(" ", "_")[:170], o[0] + ": " + o[2], trace=o[2])
     rep.samples += [o[0] for o in flat[:3]]
